@@ -49,6 +49,7 @@ INSTANCES = [
     # static chunking (decided).  On /repo these report the static / no-wait / tail defect (see NOTES.md).
     inst('static_n1', 1, 6, timeout=900, thorough={'timeout': 1500}),
     inst('static_n2', 2, 6, depth=3, tiers=TH, timeout=1500),
+    dict(inst('static_n2_ctx', 2, 5, depth=2, timeout=1500), **{'defs': dict(inst('static_n2_ctx', 2, 5, depth=2)['defs'], VF_CTX=1, VF_WAIT=1)}),
     # wired but never run to completion / too big (see NOTES.md): --tier experimental --only <name>
     inst('static_n1_startend', 1, 6, api=1, tiers=EX, timeout=900),
     inst('static_n1_index', 1, 4, api=2, tiers=EX, timeout=900, VF_SPK=1),
